@@ -32,6 +32,64 @@ def gen_cases(ctx):
     return cases
 
 
+def tls_pass(ctx):
+    """thorough tier: real TLS sessions - the rodbus TLS client holding the repository's client certificate
+    (role "operator") against spawn_tls_server_task_with_authz; the role the policy is consulted with must be
+    the certificate's, and log and per-request results must be the reference server's for that role"""
+    import os
+    import vlib
+    r = ctx.rng
+    role = b'operator'
+    cases = []
+    while len(cases) < 48:
+        k = len(cases) % 4
+        auth = ('ro', role) if k == 0 else ('deny', role) if k == 1 else ('hash', role, r.randrange(65536), r.choice([50, 50, 30, 70, 100]))
+        c = srv.gen_session(r, 'tcp', auth=auth, big_ok=False, raw=0.0, nframes=r.choice([2, 3, 5, 8]))
+        frames = tuple(f for f in c[3] if srv.classify(f[2]) in ('valid:fc1', 'valid:fc2', 'valid:fc3', 'valid:fc4', 'valid:fc5', 'valid:fc6', 'valid:fc15', 'valid:fc16'))
+        if not frames or not c[1]:
+            continue
+        # the client re-encodes write-multiple-coils with zero padding bits: send them canonical
+        canon = []
+        for tx, d, p in frames:
+            if p[0] == 15:
+                n = p[3] * 256 + p[4]
+                data = bytearray(p[6:])
+                if n % 8:
+                    data[-1] &= (1 << (n % 8)) - 1
+                p = bytes(p[:6]) + bytes(data)
+            canon.append((tx, d, p))
+        cases.append((c[0], c[1], auth, tuple(canon)))
+    impl = ctx.harness('server_tls', [srv.to_line(c) for c in cases], args=[os.path.join(vlib.REPO, 'certs')], shards=8, timeout=900)
+    both = srv.run_coq(ctx, cases)
+    rolehex = role.hex().upper()
+    bad, n_au, wrong_role = [], 0, []
+    for k, (c, i, b) in enumerate(zip(cases, impl, both)):
+        res, log, end = srv.split3(i)
+        srep, slog, _ = srv.split3(b[1])
+        want = []
+        if not srep and len(c[3]) == 1:
+            srep = ['-']          # a single silent reply and "no replies" are both rendered as `-`
+        for x in srep:
+            if x == '-':
+                want.append('err')
+            else:
+                y = bytes.fromhex(x)
+                want.append(f'ex{y[8]}' if y[7] & 0x80 else 'ok')
+        for e in srv.auth_calls(log):
+            n_au += 1
+            if not e.endswith('.' + rolehex):
+                wrong_role.append(e)
+        if end != 'done' or res != want or log != slog:
+            bad.append(k)
+    ctx.oblige('tls-session:policy-is-consulted-with-the-role-of-the-client-certificate', not wrong_role and n_au >= 50, f'{n_au} queries, wrong role: {wrong_role[:2]}')
+    ctx.oblige('tls-session:log-and-results-equal-the-reference-server', not bad, f'{len(bad)} of {len(cases)} sessions differ')
+    if bad:
+        k = bad[0]
+        ctx.violation('authorization.tls-session', 'real TLS session differs from the reference server: ' + srv.describe(cases[k]),
+                      {'cases': [srv.case_to_json(cases[k])], 'harness_line': srv.to_line(cases[k]), 'impl': impl[k], 'spec': both[k][1]})
+    return {'tls-sessions': len(cases), 'tls-sessions:authorization-queries': n_au}
+
+
 def run(ctx):
     if not srv.prepare(ctx):
         return
@@ -71,6 +129,8 @@ def run(ctx):
                 b = bytes.fromhex(x)
                 if (c[0] == 'tcp' and b[7] & 0x80 and b[8] == 1) or (c[0] == 'rtu' and b[1] & 0x80 and b[2] == 1):
                     st['denied-replies(exception 01)'] += 1
+    if not ctx.quick() and not ctx.replay:
+        st.update(tls_pass(ctx))
     cl = srv.coverage(ctx, cases, impl,
                       'sessions with an authorization handler: 8 kinds x allow/deny x configured/unconfigured/broadcast destination, built-in read-only and default '
                       'handlers per kind, then mixed sessions under hashed policies (seed, allow percentage 0..100) and arbitrary role strings; '
